@@ -2,7 +2,8 @@
 
 Case lines
   hist <op>,<op>,...     r:<addrhex>:<ty>:<old>:<new> | s:<k> | t:<d>
-  e2e  <op>,<op>,...     c:<port>:<value> | s:<k> | t:<d>       (ports b (c-typed), i, j (i-typed))
+  e2e  <op>,<op>,...     c:<port>:<value> | s:<k> | t:<d>       (ports b (c-typed), i, j (i-typed),
+                         x (rParamF) and a0 a1 a2 (rArrayF "a#3"), f-typed: value = binary32 bit pattern)
 Output: one '|'-separated field per operation (format in harness/h_C15.cpp).
 
 spec_check is a reference machine written from the property text only (it
@@ -10,6 +11,8 @@ shares no code with the Coq model): a list of retained events with the time
 of their last recording, a cursor, and for e2e a dictionary of parameter
 values.  It predicts the whole output line; the first differing field names
 the clause of the statement that fails."""
+
+import struct
 
 HARNESS = ["h_C15.cpp"]
 VARIANT = "asan-noub"
@@ -24,13 +27,14 @@ RULE = ("operation histories of length 0..60 over 2..8 addresses (one value type
         "clamped seek.")
 TRUSTED = ["harness/h_C15.cpp defines time() in the executable (the library's time(NULL) reads the harness clock), "
            "builds the /undo_change messages with rtosc_amessage, decodes callback messages with rtosc_argument*, "
-           "and for e2e wires rParam/rParamI ports to UndoHistory as test/undo-test.cpp does",
+           "and for e2e wires rParam/rParamI/rParamF/rArrayF ports to UndoHistory as test/undo-test.cpp does",
            "tools/props/C15.py reference machine (spec_check) written from the property text"]
 ASSUMPTIONS = ["the clock never goes backwards (advance-clock steps are >= 0)",
-               "the set-message of every recorded address fits the 256-byte rewind/replay buffer (address length "
-               "<= 247); longer addresses are run through model and implementation (tie) but are outside the Spec check",
+               "addresses of any length (up to 300 bytes generated: the set-message buffer of rewind/replay is sized "
+               "from the message since the long-address repair)",
                "payloads are 4-byte types (i f c) as in the statement's quantifier",
-               "end-to-end stream uses c- and i-typed ports only (f-typed ports report a wrong old value until D12 is repaired: C14)"]
+               "end-to-end stream: c-, i- and f-typed ports (rParam, rParamI, rParamF, rArrayF); float values exclude NaN and "
+               "-0.0, for which the ports' float comparison and bit equality differ (the final fields are compared as bit patterns)"]
 
 SPECIAL = [0, 1, 2, 7, 127, 128, 255, 0x7fffffff, 0x80000000, 0xffffffff, 0x3f800000, 0xbf800000,
            0x7fc00000, 0x7f800000, 0x00000001, 0x40490fdb]
@@ -53,7 +57,7 @@ def gen_hist(rng, dist):
     if r < 0.04:
         pool[0] = "/" + "L" * rng.choice([242, 243, 244, 245, 246])      # longest that still fit
     elif r < 0.06:
-        pool[0] = "/" + "L" * rng.choice([247, 248, 251, 300])           # do not fit: tie only
+        pool[0] = "/" + "L" * rng.choice([247, 248, 251, 300])           # beyond the static 256-byte buffer
     types = {a: rng.choice("ifc") for a in pool}
     counter = {a: rng.choice(SPECIAL) for a in pool}
     ops = []
@@ -99,9 +103,15 @@ def gen_hist(rng, dist):
         dist["hist/with-" + ft] = dist.get("hist/with-" + ft, 0) + 1
     return case
 
+FPORTS = ("x", "a0", "a1", "a2")
+#         0   1.0         -1.0        0.5         1.25        2.0         0.1         3.4e38      -3.4e38     inf         -inf        denormal
+FVALS = [0, 0x3f800000, 0xbf800000, 0x3f000000, 0x3fa00000, 0x40000000, 0x3dcccccd, 0x7f7fffff, 0xff7fffff, 0x7f800000, 0xff800000, 1,
+         0x00800000, 0x3f800001]
+
 def gen_e2e(rng, dist):
     n = rng.choice([1, 2, 3, 5, 8, 13, 21, 25, 30, 45, 60, rng.randint(0, 60)])
-    ports = rng.choice([["b", "i"], ["b", "i", "j"], ["i", "j"], ["b"]])
+    ports = rng.choice([["b", "i"], ["b", "i", "j"], ["i", "j"], ["b"], ["x", "a0", "a1"], ["x", "i"],
+                        ["x", "a0", "a1", "a2", "b"], ["a2", "x"], ["x"]])
     ops = []
     spaced = rng.random() < 0.35        # changes more than 2 s apart: no merging, the cap is reached
     if spaced:
@@ -110,8 +120,13 @@ def gen_e2e(rng, dist):
         x = rng.random()
         if x < (0.8 if spaced else 0.55):
             p = rng.choice(ports)
-            v = rng.randint(0, 5) if rng.random() < 0.5 else (rng.randint(0, 120) if p == "b" else
-                                                              rng.choice([-1, -2147483648, 2147483647, rng.randint(-1000, 1000)]))
+            if p in FPORTS:
+                # binary32 bit patterns; no NaN and no -0.0 (for those the ports' "!=" test and bit
+                # equality differ: a -0.0 over +0.0 is stored without an event, a NaN always records)
+                v = rng.choice(FVALS) if rng.random() < 0.7 else struct.unpack("<I", struct.pack("<f", rng.uniform(-10, 10)))[0]
+            else:
+                v = rng.randint(0, 5) if rng.random() < 0.5 else (rng.randint(0, 120) if p == "b" else
+                                                                  rng.choice([-1, -2147483648, 2147483647, rng.randint(-1000, 1000)]))
             ops.append("c:%s:%d" % (p, v))
             if spaced and rng.random() < 0.6:
                 ops.append("t:3")
@@ -198,7 +213,7 @@ def predict(case):
     f = case.split(" ")
     kind, ops = f[0], ([] if f[1] == "-" else f[1].split(","))
     m = Ref()
-    app = {"2f62": 0, "2f69": 0, "2f6a": 0}
+    app = {"2f62": 0, "2f69": 0, "2f6a": 0, hx("/x"): 0, hx("/a0"): 0, hx("/a1"): 0, hx("/a2"): 0}
     before = {}     # e2e ghost: value of each parameter before its oldest retained change
     out = []
     ok = True
@@ -206,12 +221,10 @@ def predict(case):
         p = o.split(":")
         tail = ""
         if p[0] == "r":
-            if not fits(len(p[1]) // 2):
-                ok = False
             cl = m.record(p[1], p[2], int(p[3]), int(p[4]))
             fld = m.show()
         elif p[0] == "c":
-            a, ty, v = hx("/" + p[1]), ("c" if p[1] == "b" else "i"), int(p[2]) & 0xffffffff
+            a, ty, v = hx("/" + p[1]), ("c" if p[1] == "b" else "f" if p[1] in FPORTS else "i"), int(p[2]) & 0xffffffff
             cl = "record"
             if app[a] != v:
                 cl = m.record(a, ty, app[a], v)
@@ -246,7 +259,8 @@ def predict(case):
         else:
             cl, fld = "bad", "BADOP"
         if kind == "e2e":
-            fld += " a=%d,%d,%d" % (s32(app["2f62"]), s32(app["2f69"]), s32(app["2f6a"]))
+            fld += " a=%d,%d,%d,%d,%d,%d,%d" % (s32(app["2f62"]), s32(app["2f69"]), s32(app["2f6a"]), app[hx("/x")],
+                                                app[hx("/a0")], app[hx("/a1")], app[hx("/a2")])
         out.append((cl, fld))
     return out, m.feat, ok
 
